@@ -42,6 +42,13 @@ def run(F, R):
     # O8: a submission is admitted only when the descriptors (and ring slot) it will write are free: otherwise it
     # overwrites descriptors / the ring slot of entries the device has not consumed yet, i.e. entries below the
     # published index are no longer completely written by their own submission (capacity table shared with C03.E3)
+    # O9: descriptors of entries the device has not consumed are not handed out again: the release path links the freed
+    # chain to the previous free list (shared with C03.E6)
+    from .C03 import e6_relink
+    from . import C05 as _c5r
+    for _k, _v in _c5r.classify_api(_c5r.queue_api(F, M)).items():
+        if _v == 'pop_used':
+            e6_relink(F, R, M, _k, rule='O9')
     from .C03 import e3_capacity
     from . import C05 as _c5b
     _r = _c5b.classify_api(_c5b.queue_api(F, M))
